@@ -16,6 +16,7 @@ Monitor names (one per clause of the property):
   extrusion-is-product
   tags-assigned                with_boundaries / with_subdomains / with_defaults
   smoothing-averages-neighbours, orientation-positive, trace-cells-are-facets
+  orientation-carried          a result tag that is an OrientedBoundary designates the input's (facet, cell) pairs
 """
 from __future__ import annotations
 
@@ -25,9 +26,10 @@ from fractions import Fraction
 import numpy as np
 
 from . import exact as X
-from .c18_geom import (St, attach_tags, bnd_geo, consistently_oriented, hex_faces_planar, index_problems, lib_is_valid, measure_of,
-                       own_validity, quad_signed, quad_strictly_convex, simplex_signed, sub_geo, tag_arrays,
-                       tag_kinds, wedge_faces_planar)
+from .c18_geom import (St, attach_tags, bnd_geo, consistently_oriented, hex_faces_planar, index_problems, is_oriented,
+                       lib_is_valid, measure_of, ori_pairs, oriented_like, own_validity, quad_signed,
+                       quad_strictly_convex, random_tags, simplex_signed, sub_geo, tag_arrays, tag_kinds,
+                       wedge_faces_planar)
 from .gen import meshes as G
 
 F = Fraction
@@ -42,6 +44,11 @@ M_EXTR_GAPS = "extrusion-ignores-line-connectivity"
 M_EXTR_NVERT = "extrusion-offsets-by-max-t-not-point-count"
 M_TRI_X = "to-meshtri-x-numbers-centroids-from-max-t"
 M_TRI_EMPTY = "to-meshtri-empty-boundary-tag-becomes-float-array"
+M_ORI_STALE = "oriented:oriented-tag-flags-stale-after-cell-flip"
+
+# Suspected genuine library defects found by checks that were added after the last triage: the check classifies
+# them with the narrow mechanism key below and stays silent (counted under reach point `report-only:<mech>`).
+REPORT_ONLY = set()      # (the oriented() flag defect it held was repaired in the library: ff407a3)
 
 
 def _sorted_cols(a):
@@ -49,14 +56,19 @@ def _sorted_cols(a):
 
 
 # ------------------------------------------------------------------ tag carry-over
-def check_tags(ctx, op, new, exp_sub, exp_bnd, /, mech_sub=None, mech_bnd=None, **info):
-    """exp_sub / exp_bnd: {name: set of geometric keys} that the result must designate."""
+def check_tags(ctx, op, new, exp_sub, exp_bnd, /, mech_sub=None, mech_bnd=None, exp_ori=None, ori_mode="subset",
+               ori_mech=None, judge_bnd=True, **info):
+    """exp_sub / exp_bnd: {name: set of geometric keys} that the result must designate.
+    exp_ori: {name: set of (facet key, owner cell key)} for the input tags that were oriented; judged only when
+    the result tag is oriented as well (dropping the flags is legitimate), see check_orientation."""
     info.setdefault("op", op)
     nsub, nbnd = tag_arrays(new.mesh)
-    nf = int(np.asarray(new.mesh.facets).shape[1]) if exp_bnd or nbnd else 0
+    nf = int(np.asarray(new.mesh.facets).shape[1]) if judge_bnd and (exp_bnd or nbnd) else 0
     for what, exp, got_arrays, n, geo, mon, mech in (
             ("sub", exp_sub, nsub, new.nt, sub_geo, "subdomains-carried", mech_sub),
             ("bnd", exp_bnd, nbnd, nf, bnd_geo, "boundaries-carried", mech_bnd)):
+        if what == "bnd" and not judge_bnd:
+            continue
         for name, want in exp.items():
             arr = got_arrays.get(name)
             if arr is None:
@@ -64,7 +76,13 @@ def check_tags(ctx, op, new, exp_sub, exp_bnd, /, mech_sub=None, mech_bnd=None, 
                           expected=len(want), **info)
                 continue
             prob = index_problems(arr, n)
-            got = geo(new, arr) if prob is None or prob[0] == "repeated-index" else set()
+            if prob is not None and prob[0] == "repeated-index" and what == "bnd" and is_oriented(arr) and \
+                    _distinct_oriented_entries(arr):
+                # one facet seen from both sides: (f, 0) and (f, 1) are two entries of an oriented tag
+                ctx.reached("oriented-tag-lists-a-facet-from-both-sides")
+                got, prob = geo(new, arr), None
+            else:
+                got = geo(new, arr) if prob is None or prob[0] == "repeated-index" else set()
             ctx.check(mon, want <= got, mech=mech or f"{op}:{what}-tag-lost-entities:{new.kind}", name=name,
                       missing=lambda: len(want - got), expected=len(want), got=len(got), index_problem=prob, **info)
             ctx.check("removed-tags-vanish", prob is None and got <= want,
@@ -73,9 +91,179 @@ def check_tags(ctx, op, new, exp_sub, exp_bnd, /, mech_sub=None, mech_bnd=None, 
         for name in got_arrays:
             if name not in exp:
                 ctx.check("removed-tags-vanish", False, mech=f"{op}:{what}-tag-invented:{new.kind}", name=name)
+    if judge_bnd:
+        check_orientation(ctx, op, new, nbnd, exp_ori or {}, ori_mode, nf, ori_mech, **info)
 
 
-def check_valid(ctx, op, new, mech=None, lib=True, **kw):
+def check_tags_under_finding(ctx, op, new, exp_sub, exp_bnd, /, **kw):
+    """Second-order result of a structural operation (open finding: the non-vertex nodes are lost).  The vertex
+    skeleton and the tags are still judged: cells and facets are designated through the vertex rows of t and
+    through mesh.facets, which do not involve the lost nodes.  A result whose tables cannot be built is dropped."""
+    try:
+        ok = new.t.size > 0 and int(new.t.min()) >= 0 and int(new.t.max()) < len(new.P)
+    except Exception:
+        ok = False
+    if not ok:
+        ctx.drop("second-order-result-without-usable-connectivity")
+        return
+    try:
+        np.asarray(new.mesh.facets)
+        np.asarray(new.mesh.f2t)
+        judge_bnd = True
+    except Exception:
+        ctx.drop("second-order-result-without-usable-facet-table")
+        judge_bnd = False
+    check_tags(ctx, op, new, exp_sub, exp_bnd, judge_bnd=judge_bnd, **kw)
+    ctx.reached("tags-judged-under-second-order-finding")
+
+
+def exp_orientation(old, obnd, P=None):
+    """{name: designated (facet, cell) pairs} of the oriented input tags."""
+    out = {}
+    for name, a in obnd.items():
+        if is_oriented(a):
+            pairs = ori_pairs(old, a, P)
+            if pairs is not None:
+                out[name] = pairs
+    return out
+
+
+def _distinct_oriented_entries(arr):
+    idx, ori = np.asarray(arr).ravel(), np.asarray(arr.ori).ravel()
+    if idx.size != ori.size:
+        return False
+    return len(set(zip(idx.tolist(), ori.tolist()))) == idx.size
+
+
+def check_orientation(ctx, op, new, nbnd, exp_ori, mode, nf, ori_mech=None, /, **info):
+    """Conditional oracle for oriented tags.  Whenever a boundary tag of the result is an OrientedBoundary: one
+    flag per index, flags in {0, 1}, and every (facet, cell on the flagged side) it designates is one the input
+    tag designated (mode 'subset': operations that remove cells; mode 'equal': operations that keep all cells)."""
+    mon = "orientation-carried"
+    for name, arr in nbnd.items():
+        if type(arr).__name__ != "OrientedBoundary":
+            if name in exp_ori:
+                ctx.reached("observed:orientation-dropped:" + op.split(":")[0])
+            continue
+        idx = np.asarray(arr).ravel()
+        ori = getattr(arr, "ori", None)
+        okshape = ori is not None and np.asarray(ori).shape == idx.shape and \
+            (idx.size == 0 or (int(np.min(ori)) >= 0 and int(np.max(ori)) <= 1))
+        ctx.check(mon, okshape, mech=f"{op}:oriented-tag-flags-do-not-pair-with-indices:{new.kind}", name=name,
+                  indices=int(idx.size), flags=None if ori is None else int(np.asarray(ori).size), **info)
+        if not okshape or name not in exp_ori:
+            continue
+        if idx.size and (idx.min() < 0 or idx.max() >= nf):
+            continue                                  # judged as an index problem by the carry-over monitors
+        want = exp_ori[name]
+        got = ori_pairs(new, arr)
+        outside = {pr for pr in got if pr[1] is None} - want
+        if outside and mode == "subset":
+            # the flagged cell was removed, the facet stayed: nothing is left that the flag could designate
+            ctx.tolerated(mon, 1)
+            got = got - outside
+        good = got <= want if mode == "subset" else got == want
+        mech = None
+        if not good and ori_mech is not None:
+            mech = ori_mech(name, arr)
+        if mech in REPORT_ONLY:
+            ctx.reached("report-only:" + mech)
+            ctx.tolerated(mon, 1)
+            continue
+        ctx.check(mon, good, mech=mech or f"{op}:oriented-tag-designates-other-side:{new.kind}", name=name,
+                  ori_mode=mode, wrong=lambda: len(got - want), missing=lambda: len(want - got),
+                  entries=int(idx.size), **info)
+        ctx.reached("oriented-tag-judged:" + op.split(":")[0])
+
+
+def check_orientation_identical(ctx, op, old_bnd, new_bnd, kind, /, **info):
+    """Operations that keep cells, connectivity and numbering (coordinate maps, tagging): an oriented tag comes
+    back as the same pair of arrays."""
+    for name, a in old_bnd.items():
+        if not is_oriented(a) or name not in new_bnd:
+            continue
+        b = new_bnd[name]
+        same = is_oriented(b) and np.array_equal(np.asarray(a), np.asarray(b)) and \
+            np.array_equal(np.asarray(a.ori), np.asarray(b.ori))
+        ctx.check("orientation-carried", same, mech=f"{op}:oriented-tag-arrays-changed:{kind}", name=name,
+                  result_type=type(b).__name__, **info)
+        ctx.reached("oriented-tag-identical-judged")
+
+
+def check_optional_tags(ctx, op, new, exp_sub, exp_bnd, /, **info):
+    """For operations that are free to return an untagged mesh (+, @, *, to_meshtet, trace): absence of a name is
+    accepted and counted; a name that IS present and came from an operand must designate exactly the images of
+    the operand's entities.  exp_*: {name: [acceptable sets of geometric keys]} (several when the same name
+    arrives from two operands).  Names of unknown origin: the index array must at least be well formed."""
+    info.setdefault("op", op)
+    nsub, nbnd = tag_arrays(new.mesh)
+    opn = op.split(":")[0]
+    if (exp_sub or exp_bnd) and not nsub and not nbnd:
+        ctx.reached("observed:tags-not-carried:" + opn)
+    nf = None
+    for what, exp, got_arrays, geo, mon in (("sub", exp_sub, nsub, sub_geo, "subdomains-carried"),
+                                            ("bnd", exp_bnd, nbnd, bnd_geo, "boundaries-carried")):
+        for name in exp:
+            if name not in got_arrays:
+                ctx.tolerated(mon, 1)
+        for name, arr in got_arrays.items():
+            if what == "sub":
+                n = new.nt
+            else:
+                try:
+                    nf = int(np.asarray(new.mesh.facets).shape[1]) if nf is None else nf
+                except Exception:
+                    ctx.drop("facets-of-result-not-available")
+                    continue
+                n = nf
+            prob = index_problems(arr, n)
+            if name not in exp:
+                ctx.check("removed-tags-vanish", prob is None, mech=f"{opn}:{what}-tag-of-unknown-origin-malformed:{new.kind}",
+                          name=name, index_problem=prob, **info)
+                continue
+            got = geo(new, arr) if prob is None else set()
+            ctx.check(mon, prob is None and any(got == w for w in exp[name]),
+                      mech=f"{opn}:{what}-tag-carried-with-wrong-entities:{new.kind}", name=name, got=len(got),
+                      acceptable=[len(w) for w in exp[name]], index_problem=prob, **info)
+            ctx.reached("carried-tag-judged:" + opn)
+
+
+def operand_tags(rng, st, suffix="", shared=("sA", "bA")):
+    """The state with random tags attached; names other than `shared` get the suffix (so that two operands of a
+    join carry one common and several private names)."""
+    subs, bnds = random_tags(rng, st)
+    ren = lambda d: {(k if (k in shared or not suffix) else k + suffix): v for k, v in d.items()}  # noqa: E731
+    s2 = St(attach_tags(st.mesh, ren(subs), ren(bnds)), st.kind, st.order)
+    s2._P, s2._topo = st._P, st._topo
+    return s2
+
+
+def _accept_from(operands, geo, which):
+    """{name: [acceptable image sets]} for tags of several operands that end up in ONE mesh."""
+    per = {}
+    for st in operands:
+        for name, arr in tag_arrays(st.mesh)[which].items():
+            per.setdefault(name, []).append(geo(st, arr))
+    out = {}
+    for name, sets in per.items():
+        acc = list(sets)
+        if len(sets) > 1:
+            acc.append(set().union(*sets))
+        out[name] = acc
+    return out
+
+
+def has_unused(st):
+    """A first-order state some of whose nodes belong to no cell (e.g. one of the meshes returned by `@`)."""
+    return st.order == 1 and int(np.unique(st.t).size) != int(np.asarray(st.mesh.p).shape[1])
+
+
+def check_valid(ctx, op, new, mech=None, lib=True, like=None, **kw):
+    """like: the input state; operations that keep the node array hand unused nodes of the input over, which is
+    no defect of the operation (Mesh.is_valid() is False for such meshes by definition: not consulted)."""
+    if like is not None and has_unused(like):
+        kw["allow_unused"] = True
+        lib = False
     probs = own_validity(new, **kw)
     libv = lib_is_valid(new.mesh) if (lib and new.order == 1) else True
     ok = not probs and libv is True
@@ -260,8 +448,9 @@ def op_restrict(ctx, rng, old, remove=None):
     kept_facets = old.cell_facet_vertex_sets(E) if (obnd and not skip_b) else set()
     exp_bnd = {} if skip_b else {k: {old.fkey(int(f)) for f in np.asarray(v).ravel() if old.fverts(int(f)) in kept_facets}
                                  for k, v in obnd.items()}
-    if struct_mech is None or old.order == 1:
-        check_tags(ctx, op, new, exp_sub, exp_bnd, **info)
+    (check_tags if (struct_mech is None or old.order == 1) else check_tags_under_finding)(
+        ctx, op, new, exp_sub, exp_bnd, exp_ori=({} if skip_b else exp_orientation(old, obnd)), ori_mode="subset",
+        **info)
     removed_tagged = any(len(exp_sub[k]) < len(set(np.asarray(v).tolist())) for k, v in osub.items() if k in exp_sub) \
         or any(len(exp_bnd[k]) < len(set(np.asarray(v).tolist())) for k, v in obnd.items() if k in exp_bnd)
     unused = len(set(old.t[:, E].ravel().tolist())) < len(set(old.t.ravel().tolist()))
@@ -302,6 +491,11 @@ def with_unused_nodes(rng, st):
         look = {s2.fverts(f): f for f in range(int(m2.facets.shape[1]))}
         nb = {}
         for name, arr in bnds.items():
+            if is_oriented(arr):
+                # cells keep their numbers: the flag is the row of f2t that lists the same owner cell
+                nb[name] = oriented_like(st, arr, s2, lambda owner, f: look[frozenset(int(pos_old[v])
+                                                                                        for v in st.fverts(int(f)))])
+                continue
             nb[name] = np.array([look[frozenset(int(pos_old[v]) for v in st.fverts(int(f)))]
                                  for f in np.asarray(arr).ravel()], dtype=np.int64)
         m2 = attach_tags(m2, subs, nb)
@@ -325,7 +519,8 @@ def op_remove_unused(ctx, rng, old0):
     _same_measure(ctx, op, old, new, info)
     osub, obnd = tag_arrays(old.mesh)
     check_tags(ctx, op, new, {k_: sub_geo(old, v) for k_, v in osub.items()},
-               {k_: bnd_geo(old, v) for k_, v in obnd.items()}, **info)
+               {k_: bnd_geo(old, v) for k_, v in obnd.items()}, exp_ori=exp_orientation(old, obnd), ori_mode="equal",
+               **info)
     ctx.nontrivial(op, old.cls, tag_kinds(osub, obnd))
     ctx.reached("vertex-becomes-unused")
     return new if valid else None
@@ -339,7 +534,27 @@ def _o2_cleanup(ctx, old, op):
     check_valid(ctx, op, new, mech=mech, need_measure=False)
     if mech:
         ctx.reached("second-order-structural-op")
+    # the vertex skeleton and the tags are judged whatever happened to the non-vertex nodes
+    info = {"op": op, "cls": old.cls, "ncells": old.nt}
+    if _skeleton_usable(ctx, new):
+        _same_cells(ctx, op, old, new, info, mech=f"{op}:skeleton-cells:{old.kind}2")
+        ctx.reached("skeleton-judged-under-second-order-finding")
+        osub, obnd = tag_arrays(old.mesh)
+        if osub or obnd:
+            check_tags_under_finding(ctx, op, new, {k_: sub_geo(old, v) for k_, v in osub.items()},
+                                     {k_: bnd_geo(old, v) for k_, v in obnd.items()},
+                                     exp_ori=exp_orientation(old, obnd), ori_mode="equal", **info)
     return None
+
+
+def _skeleton_usable(ctx, new):
+    try:
+        ok = new.t.size > 0 and int(new.t.min()) >= 0 and int(new.t.max()) < len(new.P)
+    except Exception:
+        ok = False
+    if not ok:
+        ctx.drop("second-order-result-without-usable-connectivity")
+    return ok
 
 
 def _same_cells(ctx, op, old, new, info, mech=None):
@@ -418,24 +633,91 @@ def with_duplicate_nodes(rng, st):
         look = {}
         for f in range(int(m2.facets.shape[1])):
             look.setdefault(s2.fkey(f), f)
+        t2f2 = np.asarray(m2.t2f)
+
+        def facet_of(owner, f):
+            # the copy of the facet that belongs to the owner cell (an interface facet exists twice)
+            want = st.fkey(int(f))
+            return next(int(g) for g in t2f2[:, owner] if s2.fkey(int(g)) == want)
         for name, arr in bnds.items():
+            if is_oriented(arr):
+                nb[name] = oriented_like(st, arr, s2, facet_of)
+                continue
             nb[name] = np.array([look[st.fkey(int(f))] for f in np.asarray(arr).ravel()], dtype=np.int64)
     m2 = attach_tags(m2, subs, nb)
     return St(m2, st.kind, st.order), len(shared)
 
 
-def op_remove_duplicates(ctx, rng, old0):
+def exploded(rng, st, tags=True):
+    """Every cell gets private copies of all its vertices, numbered at random (a discontinuous mesh, an STL
+    import): a vertex of valence n exists n times, every facet is a boundary facet, an interior facet of the
+    original exists twice.  Subdomains are kept; a plain boundary tag designates one or both copies of each of
+    its facets; an oriented tag designates the copy of the owner cell; one more oriented tag ('bBoth') lists both
+    copies of some facets, i.e. the facet seen from both sides.  Returns (state, number of surplus nodes)."""
+    from skfem.generic_utils import OrientedBoundary
+    m = st.mesh
+    p, t = np.asarray(m.p), st.t
+    nv, nt = t.shape
+    t2 = rng.permutation(nv * nt).reshape(nt, nv).T.astype(np.int64)
+    p2 = np.empty((p.shape[0], nv * nt))
+    p2[:, t2] = p[:, t]
+    m2 = type(m)(p2, t2)
+    s2 = St(m2, st.kind, 1)
+    surplus = nv * nt - len(set(st.P[v] for v in np.unique(t)))
+    if not tags:
+        return s2, surplus
+    subs, bnds = tag_arrays(m)
+    copies = {}
+    for g in range(int(np.asarray(m2.facets).shape[1])):
+        copies.setdefault(s2.fkey(g), []).append(g)
+    t2f2, f2t2 = np.asarray(m2.t2f), np.asarray(m2.f2t)
+
+    def facet_of(owner, f):
+        want = st.fkey(int(f))
+        return next(int(g) for g in t2f2[:, owner] if s2.fkey(int(g)) == want)
+    nb = {}
+    for name, arr in bnds.items():
+        if is_oriented(arr):
+            nb[name] = oriented_like(st, arr, s2, facet_of)
+            continue
+        idx = []
+        for f in np.asarray(arr).ravel():
+            cs = copies[st.fkey(int(f))]
+            idx.extend(cs if rng.random() < 0.6 else [cs[int(rng.integers(len(cs)))]])
+        nb[name] = np.array(idx, dtype=np.int64)[rng.permutation(len(idx))]
+    nf = int(np.asarray(m.facets).shape[1])
+    if nf:
+        both = []
+        for f in rng.choice(nf, size=min(nf, int(rng.integers(1, 6))), replace=False):
+            both.extend(copies[st.fkey(int(f))])
+        both = np.array(both, dtype=np.int64)
+        # every facet of the exploded mesh has one cell: flag 0
+        if (f2t2[1, both] == -1).all():
+            nb["bBoth"] = OrientedBoundary(both, np.zeros(both.size, dtype=np.int64))
+    return St(attach_tags(m2, subs, nb), st.kind, 1), surplus
+
+
+def op_remove_duplicates(ctx, rng, old0, explode=False):
     op = "remove_duplicate_nodes"
     if old0.order != 1:
         return _o2_cleanup(ctx, old0, op)
-    old, k = with_duplicate_nodes(rng, old0)
+    if explode:
+        old, k = exploded(rng, old0)
+        if k == 0:
+            ctx.drop("no-shared-vertices-to-duplicate")
+            return old0
+        ctx.reached("remove-duplicates-of-exploded-mesh")
+        if any(n > 2 for n in np.bincount(old0.t.ravel())):
+            ctx.reached("three-or-more-coincident-copies")
+    else:
+        old, k = with_duplicate_nodes(rng, old0)
     if old is None:
         ctx.drop("no-shared-vertices-to-duplicate")
         return old0
     new_mesh = old.mesh.remove_duplicate_nodes()
     ctx.reached("op:" + op)
     new = St(new_mesh, old.kind, 1)
-    info = {"op": op, "cls": old.cls, "duplicates": k, "ncells": old.nt}
+    info = {"op": op, "cls": old.cls, "duplicates": k, "ncells": old.nt, "exploded": bool(explode)}
     valid = check_valid(ctx, op, new)
     ctx.check("shared-vertex-structure", set(new.P) == set(old.P) and len(set(new.P)) == len(new.P),
               mech=f"{op}:coincident-vertices-merged:{old.kind}", **info)
@@ -449,10 +731,17 @@ def op_remove_duplicates(ctx, rng, old0):
         and not _facets_same_geometry(old, new)
     check_tags(ctx, op, new, {k_: sub_geo(old, v) for k_, v in osub.items()},
                {k_: bnd_geo(old, v) for k_, v in obnd.items()},
-               mech_bnd=M_DEDUP_STALE if stale else None, **info)
-    ctx.nontrivial(op, old.cls, tag_kinds(osub, obnd))
+               mech_bnd=M_DEDUP_STALE if stale else None, exp_ori=exp_orientation(old, obnd), ori_mode="equal",
+               **info)
+    ctx.nontrivial(op, old.cls, tag_kinds(osub, obnd), "exploded" if explode else "partial")
     ctx.reached("coincident-vertices-merged")
-    return attach_clean(new, nsub) if valid else None
+    if explode and "bBoth" in obnd and is_oriented(nbnd.get("bBoth")) and \
+            np.unique(np.asarray(nbnd["bBoth"])).size < np.asarray(nbnd["bBoth"]).size:
+        ctx.reached("merged-facet-listed-from-both-sides")
+    if not valid:
+        return None
+    # (an exploded input carries 'bBoth', an oriented tag with repeated facets: not a general-purpose input)
+    return attach_clean(new, nsub) if explode else new
 
 
 def attach_clean(new, subs):
@@ -516,6 +805,12 @@ def op_add(ctx, rng, A, B, expect_exact=True):
         check_valid(ctx, op, new, mech=mech, need_measure=False)
         if mech:
             ctx.reached("second-order-structural-op")
+        if _skeleton_usable(ctx, new):
+            # vertex skeleton: the cells of A followed by the cells of B
+            ok = new.nt == A.nt + B.nt and all(
+                new.ckey(c) == (A.ckey(c) if c < A.nt else B.ckey(c - A.nt)) for c in range(new.nt))
+            ctx.check("cells-are-expected-point-sets", ok, mech=f"{op}:skeleton-cells:{A.kind}2", **info)
+            ctx.reached("skeleton-judged-under-second-order-finding")
         return None
     union = _expected_union([A, B])
     merged = len(A.P) + len(B.P) - len(union)
@@ -552,12 +847,116 @@ def op_add(ctx, rng, A, B, expect_exact=True):
     else:
         ctx.check("measure-exact", mn == ma + mb, mech=f"{op}:measure:{A.kind}", got=float(mn), ref=float(ma + mb),
                   **info)
+    if ok and (A.mesh.subdomains or A.mesh.boundaries or B.mesh.subdomains or B.mesh.boundaries):
+        ctx.reached("tagged-operands:add")
+        check_optional_tags(ctx, op, new, _accept_from([A, B], sub_geo, 0), _accept_from([A, B], bnd_geo, 1), **info)
     if merged and merged < min(len(A.P), len(B.P)):
         ctx.nontrivial(op, A.cls, "partially-coincident")
         ctx.reached("join-partially-coincident")
     elif merged == 0:
         ctx.nontrivial(op, A.cls, "disjoint")
     ctx.sample({"op": "add", "cls": A.cls, "cells": [A.nt, B.nt], "merged_vertices": merged})
+    return new if valid else None
+
+
+def nudge(rng, x, nmax=4):
+    """x moved by a random number (-nmax..nmax) of units in the last place, entry by entry."""
+    x = np.array(x, dtype=float)
+    steps = rng.integers(-nmax, nmax + 1, size=x.shape)
+    for _ in range(nmax):
+        up, dn = steps > 0, steps < 0
+        x[up] = np.nextafter(x[up], np.inf)
+        x[dn] = np.nextafter(x[dn], -np.inf)
+        steps = steps - np.sign(steps)
+    return x
+
+
+def op_add_near(ctx, rng, A0, B0, how, bits=8):
+    """A + B where the interface vertices agree only up to a few units in the last place (the purpose of `+`:
+    B was produced by another computation than A).  A0, B0: parts on the 2^-bits lattice sharing their interface
+    bitwise (split_parts).  Oracle: every interface pair is merged (node count), every coordinate of the result is
+    bitwise a coordinate of one operand, and the cells are the operands' cells after snapping to the lattice."""
+    op = "add"
+    kind = A0.kind
+    lat = 2.0 ** bits
+
+    def canon(P):
+        return [tuple(np.round(np.array(v) * lat) / lat) for v in P]
+    pa, pb = np.asarray(A0.mesh.p).copy(), np.asarray(B0.mesh.p).copy()
+    both = np.hstack((pa, pb))
+    ext = float(np.ptp(both, axis=1).max())
+    if ext <= 0 or ext > 1e6 / lat / 4:
+        ctx.drop("near-join-skipped(lattice-finer-than-the-merge-tolerance)")
+        return None
+    setA = set(A0.P)
+    iface_b = np.array([v in setA for v in B0.P])
+    setB = set(B0.P)
+    iface_a = np.array([v in setB for v in A0.P])
+    n_iface = int(iface_b.sum())
+    if n_iface == 0:
+        ctx.drop("near-join-skipped(no-interface)")
+        return None
+    # pitfall: the library merges through a rounded key; a coordinate whose key sits next to a rounding boundary
+    # may legitimately land on either side for the two operands
+    u = pb[:, iface_b] / ext * 1e8
+    frac = u - np.floor(u)
+    if (np.abs(frac - 0.5) < 1e-3).any():
+        ctx.drop("near-join-skipped(interface-coordinate-next-to-a-rounding-boundary-of-the-key)")
+        return None
+    if how == "ulp-b":
+        pb[:, iface_b] = nudge(rng, pb[:, iface_b])
+    elif how == "ulp-both":
+        pa[:, iface_a] = nudge(rng, pa[:, iface_a], 2)
+        pb[:, iface_b] = nudge(rng, pb[:, iface_b], 2)
+    elif how == "translate-back":
+        third = 1.0 / 3.0
+        pb = (pb + third) - third
+    else:
+        raise ValueError(how)
+    A = St(type(A0.mesh)(pa, np.asarray(A0.mesh.t).copy()), kind, 1)
+    B = St(type(B0.mesh)(pb, np.asarray(B0.mesh.t).copy()), kind, 1)
+    moved = int((np.asarray(B.mesh.p)[:, iface_b] != np.asarray(B0.mesh.p)[:, iface_b]).any(axis=0).sum()) + \
+        int((np.asarray(A.mesh.p)[:, iface_a] != np.asarray(A0.mesh.p)[:, iface_a]).any(axis=0).sum())
+    if canon(A.P) != A0.P or canon(B.P) != B0.P:
+        ctx.drop("near-join-skipped(perturbation-leaves-the-lattice-cell)")
+        return None
+    new_mesh = A.mesh + B.mesh
+    ctx.reached("op:add")
+    new = St(new_mesh, kind, 1)
+    info = {"op": op, "cls": A.cls, "cells": [A.nt, B.nt], "how": how, "interface": n_iface, "moved": moved}
+    want_nodes = len(A.P) + len(B.P) - n_iface
+    nodes = len(new.P)
+    ctx.check("shared-vertex-structure", nodes <= want_nodes,
+              mech=f"{op}:nearly-coincident-vertices-not-merged:{kind}", nodes=nodes, expected=want_nodes, **info)
+    ctx.check("shared-vertex-structure", nodes >= want_nodes, mech=f"{op}:distinct-vertices-merged:{kind}",
+              nodes=nodes, expected=want_nodes, **info)
+    operands = set(A.P) | set(B.P)
+    ctx.check("coordinates-transformed", set(new.P) <= operands,
+              mech=f"{op}:merged-coordinate-is-neither-operands:{kind}", foreign=lambda: len(set(new.P) - operands),
+              **info)
+    cn = canon(new.P)
+    ctx.check("shared-vertex-structure", len(set(cn)) == len(cn) and set(cn) == set(A0.P) | set(B0.P),
+              mech=f"{op}:vertex-set-after-near-merge:{kind}", **info)
+    valid = check_valid(ctx, op, new, allow_repeated_cells=False)
+    t = new.t
+    ok = new.nt == A.nt + B.nt and t.size > 0 and t.min() >= 0 and t.max() < len(cn)
+    bad = None
+    if ok:
+        for c in range(new.nt):
+            src, cc = (A0, c) if c < A.nt else (B0, c - A.nt)
+            got = [cn[v] for v in t[:, c]]
+            same = (frozenset(got) == src.ckey(cc)) if A.sorted_cells else (tuple(got) == src.ctuple(cc))
+            if not same:
+                ok, bad = False, c
+                break
+    ctx.check("cells-are-expected-point-sets", ok, mech=f"{op}:cells-after-near-merge:{kind}", first_bad=bad, **info)
+    if moved:
+        ctx.nontrivial(op, A.cls, "nearly-coincident", how)
+        ctx.reached("join-nearly-coincident")
+        ctx.reached("join-nearly-coincident:" + how)
+    else:
+        ctx.drop("near-join-perturbation-was-the-identity")
+    ctx.sample({"op": "add", "cls": A.cls, "cells": [A.nt, B.nt], "how": how, "interface": n_iface, "moved": moved})
     return new if valid else None
 
 
@@ -586,9 +985,14 @@ def op_matmul(ctx, rng, parts, form="list"):
         for o, s in zip(out, order):
             if s.order == 2:
                 mech = M_O2_STRUCT if o2_struct_predicate(s, o) else None
-                check_valid(ctx, op, St(o, s.kind, 2), mech=mech, need_measure=False)
+                new = St(o, s.kind, 2)
+                check_valid(ctx, op, new, mech=mech, need_measure=False)
                 if mech:
                     ctx.reached("second-order-structural-op")
+                if _skeleton_usable(ctx, new):
+                    ok = new.nt == s.nt and all(new.ckey(c) == s.ckey(c) for c in range(s.nt))
+                    ctx.check("cells-are-expected-point-sets", ok, mech=f"{op}:skeleton-cells:{s.kind}2", **info)
+                    ctx.reached("skeleton-judged-under-second-order-finding")
         return None
     union = _expected_union(order)
     p0 = np.asarray(out[0].p)
@@ -599,6 +1003,7 @@ def op_matmul(ctx, rng, parts, form="list"):
               mech="matmul:coincident-vertices-merged", **info, nodes=len(P0), distinct=len(union))
     # stacked operand coordinates in call order (self first): used only by the predicate of the mechanism
     call_order = [first] + rest
+    all_cells_ok = True
     stacked = np.hstack([np.asarray(s.mesh.p) for s in call_order])
     n0 = np.asarray(first.mesh.p).shape[1]
     for j, (o, s) in enumerate(zip(out, order)):
@@ -627,6 +1032,11 @@ def op_matmul(ctx, rng, parts, form="list"):
                     return f"matmul:cells:{s.kind}"
             return M_MATMUL
         ctx.check("cells-are-expected-point-sets", okc, mech=mech, position=j, first_bad=bad, problems=probs, **info)
+        all_cells_ok = all_cells_ok and okc
+        if okc and (s.mesh.subdomains or s.mesh.boundaries):
+            ctx.reached("tagged-operands:matmul")
+            check_optional_tags(ctx, op, new, _accept_from([s], sub_geo, 0), _accept_from([s], bnd_geo, 1),
+                                position=j, **info)
         if okc:
             mo, mn = s.measure(), new.measure()
             if mo is not None and mn is not None:
@@ -637,7 +1047,8 @@ def op_matmul(ctx, rng, parts, form="list"):
         ctx.reached("join-partially-coincident")
     ctx.sample({"op": "matmul", "form": form, "classes": info["classes"], "cells": info["cells"],
                 "merged_vertices": merged})
-    return None
+    # the returned meshes share one node array: each of them carries the other meshes' vertices as unused nodes
+    return [St(o, s.kind, 1) for o, s in zip(out, order)] if all_cells_ok else None
 
 
 # ------------------------------------------------------------------------ splits
@@ -690,7 +1101,7 @@ def op_to_meshtri(ctx, rng, old, style=None, conform_expected=True):
         ctx.reached("to-meshtri-x-on-mesh-with-extra-nodes")
     # a second-order input hands its non-vertex nodes over as unused vertices: Mesh.is_valid() then says False;
     # counted, not judged (the geometry of the result does not depend on them)
-    valid = check_valid(ctx, op, new, mech=x_mech, allow_unused=(old.order == 2), lib=(old.order == 1))
+    valid = check_valid(ctx, op, new, mech=x_mech, allow_unused=(old.order == 2), lib=(old.order == 1), like=old)
     if old.order == 2:
         ctx.reached("observed:split-of-second-order-mesh-keeps-extra-nodes-as-unused-vertices")
     # coordinates: old vertices keep number and place, centroids appended
@@ -766,7 +1177,16 @@ def op_to_meshtri(ctx, rng, old, style=None, conform_expected=True):
             sel = set(np.asarray(arr).ravel().tolist())
             exp_sub[name] = {new.ckey(i) for i in range(new.nt) if parents[i] in sel}
         exp_bnd = {name: bnd_geo(old, arr) for name, arr in obnd.items()}
-        check_tags(ctx, op, new, exp_sub, exp_bnd, **info)
+        # an oriented tag (should the split ever keep the flags): the flagged side is the child of the owner cell
+        # that contains the facet
+        exp_ori = {}
+        if any(is_oriented(a) for a in obnd.values()):
+            kids = {}
+            for i, c in enumerate(parents):
+                kids.setdefault(old.ckey(c), []).append(new.ckey(i))
+            for name, pairs in exp_orientation(old, obnd).items():
+                exp_ori[name] = {(fk, ck) for fk, owner in pairs for ck in kids.get(owner, []) if fk <= ck}
+        check_tags(ctx, op, new, exp_sub, exp_bnd, exp_ori=exp_ori, ori_mode="equal", **info)
         # predicate of the recorded mechanism: an EMPTY tag of the input comes back as a float64 array (the next
         # restrict/trace then raises IndexError when it indexes with it)
         nsub, nbnd = tag_arrays(new_mesh)
@@ -800,7 +1220,7 @@ def op_to_meshtet(ctx, rng, old, conform_expected=False):
     info = {"op": op, "cls": old.cls, "ncells": nt}
     ctx.check("result-valid", type(new_mesh) is skfem.MeshTet1, mech=f"{op}:class", **info)
     new = St(new_mesh, "tet", 1)
-    valid = check_valid(ctx, op, new, allow_unused=(old.order == 2), lib=(old.order == 1))
+    valid = check_valid(ctx, op, new, allow_unused=(old.order == 2), lib=(old.order == 1), like=old)
     ctx.check("coordinates-transformed", np.array_equal(np.asarray(new_mesh.p), np.asarray(m.p)),
               mech=f"{op}:vertices-kept", **info)
     by_vertex = {}
@@ -847,6 +1267,25 @@ def op_to_meshtet(ctx, rng, old, conform_expected=False):
         mo, mn = old.measure(), new.measure()
         if mo is not None and mn is not None:
             ctx.check("measure-exact", mo == mn, mech=f"{op}:measure:{old.kind}", got=float(mn), ref=float(mo), **info)
+    osub, obnd = tag_arrays(m)
+    if osub or obnd:
+        ctx.reached("tagged-operands:to_meshtet")
+        exp_sub = {}
+        for name, arr in osub.items():
+            sel = set(np.asarray(arr).ravel().tolist())
+            exp_sub[name] = [{new.ckey(i) for i in range(new.nt) if parents[i] in sel}]
+        exp_bnd = {}
+        if obnd:
+            nfk = [new.fkey(g) for g in range(int(np.asarray(new_mesh.facets).shape[1]))]
+            for name, arr in obnd.items():
+                tagged = bnd_geo(old, arr)
+                by_pt = {}
+                for fk in tagged:
+                    for v in fk:
+                        by_pt.setdefault(v, []).append(fk)
+                # the pieces of a tagged facet: result facets all of whose vertices lie on it
+                exp_bnd[name] = [{k_ for k_ in nfk if any(k_ <= fk for fk in by_pt.get(next(iter(k_)), []))}]
+        check_optional_tags(ctx, op, new, exp_sub, exp_bnd, **info)
     conf = new.topo.max_cells_per_facet() <= 2 and _boundary_pieces_ok(old, new)
     if conform_expected:
         # local vertex orders produced by the library's own constructors: neighbouring cells must cut the
@@ -916,7 +1355,7 @@ def op_extrude(ctx, rng, base, line, swap=False):
               got=len(got), expected=len(want))
     if mech:
         return None
-    valid = check_valid(ctx, op, new, allow_unused=(base.order == 2))
+    valid = check_valid(ctx, op, new, allow_unused=(base.order == 2), like=base)
     if kind == "wedge":
         ok = True
         for c in range(new.nt):
@@ -931,6 +1370,38 @@ def op_extrude(ctx, rng, base, line, swap=False):
     mn = new.measure()
     if mb is not None and mn is not None:
         ctx.check("measure-exact", mn == mb * ml, mech=f"{op}:measure", got=float(mn), ref=float(mb * ml), **info)
+    bsub, bbnd = tag_arrays(base.mesh)
+    lsub, lbnd = tag_arrays(line.mesh)
+    if (bsub or bbnd or lsub or lbnd) and base.order == 1 and set(got) == want:
+        # tags of the factors (none are carried today).  A cell tag of a factor designates the product cells over
+        # its cells, a facet tag the product of its facets with the cells of the other factor.
+        ctx.reached("tagged-operands:extrude")
+        LP = np.asarray(line.mesh.p)[0]
+
+        def lcell(j):
+            a, b = (float(LP[v]) for v in line.t[:, int(j)])
+            return (min(a, b), max(a, b))
+
+        def prod(key, zs):
+            return frozenset(v + (z,) for v in key for z in zs)
+        allc = [base.ckey(c) for c in range(base.nt)]
+        exp_sub, exp_bnd = {}, {}
+        for name, arr in bsub.items():
+            exp_sub.setdefault(name, []).append({prod(base.ckey(int(c)), pr) for c in np.asarray(arr).ravel()
+                                                 for pr in lcells})
+        for name, arr in lsub.items():
+            exp_sub.setdefault(name, []).append({prod(ck, lcell(j)) for ck in allc for j in np.asarray(arr).ravel()})
+        for name, arr in bbnd.items():
+            exp_bnd.setdefault(name, []).append({prod(base.fkey(int(f)), pr) for f in np.asarray(arr).ravel()
+                                                 for pr in lcells})
+        for name, arr in lbnd.items():
+            zs = [next(iter(line.fkey(int(f))))[0] for f in np.asarray(arr).ravel()]
+            exp_bnd.setdefault(name, []).append({prod(ck, (z,)) for ck in allc for z in zs})
+        for e in (exp_sub, exp_bnd):
+            for name, sets in e.items():
+                if len(sets) > 1:
+                    sets.append(set().union(*sets))
+        check_optional_tags(ctx, op, new, exp_sub, exp_bnd, **info)
     ctx.nontrivial(op, base.cls, "layers>1" if len(lcells) > 1 else "one-layer")
     ctx.sample({"op": op, "base": base.cls, "base_cells": base.nt, "layers": len(lcells), "cells": new.nt})
     return new if valid else None
@@ -1082,8 +1553,10 @@ def op_transform(ctx, rng, old, which=None):
     # cell-wise non-degeneracy is demanded when the image is exact in floating point; after an inexact map a cell
     # whose corner Jacobian is ~0 (e.g. produced by an earlier smoothing) may flip by rounding: dropped, the
     # coordinates (checked above) and the total measure (checked below, relative) are the oracle there
-    valid = check_valid(ctx, op, new, need_measure=(A is not None and old.order == 1 and factor != 0 and exact))
-    if valid and A is not None and old.order == 1 and not exact and own_validity(new, need_measure=True):
+    valid = check_valid(ctx, op, new, need_measure=(A is not None and old.order == 1 and factor != 0 and exact),
+                        like=old)
+    if valid and A is not None and old.order == 1 and not exact and \
+            own_validity(new, need_measure=True, allow_unused=has_unused(old)):
         ctx.drop("inexact-transform-of-a-nearly-degenerate-cell")
         return None
     if A is not None and valid:
@@ -1096,12 +1569,13 @@ def op_transform(ctx, rng, old, which=None):
     exp_sub = {k: {frozenset(newP[v] for v in t[:, int(c)]) for c in np.asarray(a).ravel()} for k, a in osub.items()}
     fc = np.asarray(m.facets) if obnd else None
     exp_bnd = {k: {frozenset(newP[v] for v in fc[:, int(f)]) for f in np.asarray(a).ravel()} for k, a in obnd.items()}
-    check_tags(ctx, op, new, exp_sub, exp_bnd, **info)
+    check_tags(ctx, op, new, exp_sub, exp_bnd, exp_ori=exp_orientation(old, obnd, P=newP), ori_mode="equal", **info)
+    check_orientation_identical(ctx, op, obnd, tag_arrays(new_mesh)[1], old.kind, **info)
     if (factor is not None and factor != 1) or osub or obnd:
         ctx.nontrivial(op, old.cls, tag_kinds(osub, obnd))
     ctx.sample({"op": op, "cls": old.cls, "arg": desc, "exact": exact,
                 "det": None if factor is None else float(factor)})
-    if A is None and valid and old.order == 1 and own_validity(new, need_measure=True):
+    if A is None and valid and old.order == 1 and own_validity(new, need_measure=True, allow_unused=has_unused(old)):
         ctx.drop("nonlinear-morph-folded-a-cell")
         return None
     return new if valid else None
@@ -1135,11 +1609,20 @@ def op_oriented(ctx, rng, old):
         pos = ok and bool((np.asarray(new_mesh.orientation()) == 1).all()) and \
             all(new.ctuple(c) == old.ctuple(c) for c in range(old.nt) if ori[c] == 1)
     ctx.check("orientation-positive", pos, mech=f"{op}:negative-cell-left:{old.kind}{old.order}", **info)
-    valid = check_valid(ctx, op, new, need_measure=(old.order == 1))
+    valid = check_valid(ctx, op, new, need_measure=(old.order == 1), like=old)
     if ok:
         _same_measure(ctx, op, old, new, info)
+        def stale_flags(name, arr):
+            # predicate of the suspected defect: cells were flipped (their local facet numbering and with it the
+            # row order of f2t changed for some tagged facet) while the tag came back as the same two arrays
+            a = obnd[name]
+            idx = np.asarray(a).ravel()
+            same = np.array_equal(idx, np.asarray(arr).ravel()) and np.array_equal(np.asarray(a.ori), np.asarray(arr.ori))
+            moved = not np.array_equal(np.asarray(m.f2t)[:, idx], np.asarray(new_mesh.f2t)[:, idx])
+            return M_ORI_STALE if (same and moved and info["negative"] > 0) else None
         check_tags(ctx, op, new, {k: sub_geo(old, v) for k, v in osub.items()},
-                   {k: bnd_geo(old, v) for k, v in obnd.items()}, **info)
+                   {k: bnd_geo(old, v) for k, v in obnd.items()}, exp_ori=exp_orientation(old, obnd),
+                   ori_mode="equal", ori_mech=stale_flags, **info)
     if info["negative"] and info["negative"] < old.nt:
         ctx.nontrivial(op, old.cls, tag_kinds(osub, obnd))
         ctx.reached("oriented-flips-some-cells")
@@ -1229,7 +1712,9 @@ def op_smoothed(ctx, rng, old):
     exp_bnd = {k: {frozenset(newP[v] for v in fc[:, int(f)]) for f in np.asarray(a).ravel()} for k, a in obnd.items()}
     dup = len(set(newP)) != len(newP)
     if not dup:
-        check_tags(ctx, op, new, exp_sub, exp_bnd, **info)
+        check_tags(ctx, op, new, exp_sub, exp_bnd, exp_ori=exp_orientation(old, obnd, P=newP), ori_mode="equal",
+                   **info)
+        check_orientation_identical(ctx, op, obnd, tag_arrays(new_mesh)[1], old.kind, **info)
     else:
         ctx.drop("smoothing-made-vertices-coincide")
     moved = int((np.abs(pn - pold).max(axis=0) > 0).sum()) if pn.shape == pold.shape else 0
@@ -1324,6 +1809,32 @@ def op_trace(ctx, rng, old):
     wantp = pold[:, used] if project is None else project(pold[:, used])
     ctx.check("trace-cells-are-facets", tp.shape == wantp.shape and np.array_equal(tp, wantp),
               mech=f"trace:vertices-are-the-used-ones-in-order:{old.kind}", **info)
+    # tags on the trace mesh (none today): a subdomain named like a boundary of the input designates the traced
+    # facets of that boundary; anything else must at least be a well-formed index array
+    tsub = dict(getattr(tm, "subdomains", None) or {})
+    tbnd = dict(getattr(tm, "boundaries", None) or {})
+    if obnd and not tsub and not tbnd:
+        ctx.reached("observed:tags-not-carried:trace")
+    for name, arr in tsub.items():
+        prob = index_problems(arr, fac.size)
+        if name in obnd:
+            sel = set(np.asarray(obnd[name]).ravel().tolist())
+            want = {i for i, f in enumerate(fac.tolist()) if f in sel}
+            ctx.check("boundaries-carried", prob is None and set(np.asarray(arr).ravel().tolist()) == want,
+                      mech=f"trace:sub-tag-carried-with-wrong-entities:{old.kind}", name=name, index_problem=prob, **info)
+            ctx.reached("carried-tag-judged:trace")
+        else:
+            ctx.check("removed-tags-vanish", prob is None, mech=f"trace:sub-tag-of-unknown-origin-malformed:{old.kind}",
+                      name=name, index_problem=prob, **info)
+    if tbnd and mtype is not None:
+        try:
+            ntf = int(np.asarray(tm.facets).shape[1])
+        except Exception:
+            ntf = None
+        for name, arr in tbnd.items():
+            prob = index_problems(arr, ntf) if ntf is not None else None
+            ctx.check("removed-tags-vanish", prob is None, mech=f"trace:bnd-tag-malformed:{old.kind}", name=name,
+                      index_problem=prob, **info)
     ctx.nontrivial(op, old.cls, form, info["mtype"])
     ctx.sample(info)
     return None
@@ -1403,6 +1914,8 @@ def op_with_tags(ctx, rng, old):
             ok = ok and k in b3 and np.array_equal(np.asarray(b3[k]), np.asarray(obnd[k]))
     ctx.check("tags-assigned", ok, mech=f"with_boundaries:{old.kind}", **info,
               got={k: len(np.asarray(v)) for k, v in b3.items()}, expected={k: len(v) for k, v in exp_b.items()})
+    check_orientation_identical(ctx, "with_boundaries", {k: v for k, v in obnd.items() if k not in exp_b}, b3, old.kind,
+                                **info)
     ctx.check("tags-assigned", tag_arrays(m3)[0].keys() == s2.keys() and np.array_equal(np.asarray(m3.t), np.asarray(m.t)),
               mech="with_boundaries:mesh-or-subdomains-changed", **info)
     ctx.nontrivial(op, old.cls, "predicate" if (new_b or fn is not None) else "arrays")
